@@ -130,9 +130,6 @@ def make_plan(rnd, quick):
 
 # ----------------------------------------------------------------------------- TLC on traces
 
-TUPLE = r'<<\s*"%s",\s*(\d+)(.*?)>>\s*\n'
-
-
 def parse_verdict(out):
     """first verdict tuple printed by ConstCacheTrace"""
     m = re.search(r'<<\s*"REJECTED",\s*(\d+),\s*<<(.*?)>>\s*>>', out, re.S)
@@ -185,8 +182,7 @@ def validate_file(args):
         if not bad:
             raise vf.FrameworkError("verdict names an unknown execution %d (%s)" % (xid, label))
         if kind == "REJECTED" and info and info[0] == "crash" and bad[0].get("phase", 3) < 3:
-            raise vf.FrameworkError("the sequential part of execution %d (%s %s, phase %s) died with %s: invalid plan, no verdict"
-                                    % (xid, bad[0]["fam"], bad[0]["state"], bad[0].get("phase"), info[1]))
+            kind = "SEQCRASH"     # died before any thread was started: no verdict about concurrency
         findings.append({"kind": kind, "info": info, "exec": bad[0], "tlc": r.error_trace[:6000] or r.out[-2500:]})
         rows = [row for row in rows if row["x"] != xid]
     return n_ok, findings, gen, dist
@@ -332,7 +328,16 @@ def record_and_validate(ctx, execs, lib, drv, wd, tag="run"):
 
 
 def report_findings(ctx, findings, execs_by_id):
+    seq = [f for f in findings if f["kind"] == "SEQCRASH"]
+    if seq:
+        ctx.extra["executions_dropped_sequential_crash"] = [
+            {"grid": "%s var=%d state=%s" % (f["exec"]["fam"], f["exec"]["var"], f["exec"]["state"]), "phase": f["exec"].get("phase"),
+             "signal": f["exec"].get("sig"), "plan": plan_text([execs_by_id[f["exec"]["x"]]])} for f in seq][:10]
+        print("NOTE C12: %d executions died in their sequential part (grid preparation or calls made alone) and were dropped: "
+              "no verdict about concurrency (see evidence)" % len(seq))
     for f in findings:
+        if f["kind"] == "SEQCRASH":
+            continue
         sig, desc = signature(f)
         E = f["exec"]
         plan = plan_text([execs_by_id[E["x"]]]) if E["x"] in execs_by_id else ""
@@ -405,7 +410,7 @@ def binding_probes(ctx, rows, wd):
     E["threads"][ti][ki]["op"] = "ev"
     probes.append(("cache-access-in-evaluate", E, "REJECTED"))
     # 6 one result differs from the call made alone
-    E = clone(); E["threads"][0][0]["eq"] = False
+    E = clone(); E["threads"][0][0]["eq"] = False; E["threads"][0][0]["det"] = True
     probes.append(("eq-bit-false", E, "RESULT_DIFFERS"))
     # 7 the same recording with the lock / unlock events erased (= the access programs of the unrepaired code)
     E = clone()
@@ -490,6 +495,17 @@ def run(ctx):
                 calls[OP_NAMES.get(c["op"], c["op"])] = calls.get(OP_NAMES.get(c["op"], c["op"]), 0) + 1
     ctx.extra["executions_per_family_state"] = cover
     ctx.extra["const_calls_made_concurrently"] = calls
+    nondet = {}
+    for E in rows:
+        for t in E["threads"]:
+            for c in t:
+                if not c.get("det", True):
+                    key = "%s/%s:%s" % (E["fam"], E["state"], OP_NAMES.get(c["op"], c["op"]))
+                    nondet[key] = nondet.get(key, 0) + 1
+    ctx.extra["calls_without_a_defined_result_when_run_alone"] = nondet
+    if nondet:
+        print("NOTE C12: %d recorded calls give different results on two identical grids even when run alone "
+              "(sequential defect outside C12, eq bit not judged): %s" % (sum(nondet.values()), ", ".join(sorted(nondet))))
     ctx.extra["threads_per_execution"] = sorted({E["nt"] for E in rows})
     ctx.extra["cache_discipline_observed_in_wavelet_calls"] = observed_disciplines(rows)
     ctx.extra["foreign_hook_events_ignored"] = max([E.get("other", 0) for E in rows] or [0])
@@ -520,7 +536,8 @@ def run(ctx):
     ctx.assume("hook events are placed faithfully: build_begin/build_end bracket every write of the cell, use_begin/use_end every read, "
                "lock/unlock events are emitted while the mutex is held")
     ctx.assume("the result of a call made alone is taken from an identical twin grid built by the same deterministic recipe "
-               "(a const call on the grid under test would itself change the cache state)")
+               "(a const call on the grid under test would itself change the cache state); calls on which two twins disagree "
+               "even sequentially are listed under calls_without_a_defined_result_when_run_alone and their eq bit is not judged")
     ctx.assume("calls without cache events read immutable grid data only; they are left out of the interleaving exploration "
                "(they commute with every step) and are bound by the eq bit alone")
     ctx.assume("default acceleration mode (accel_none, no BLAS/GPU build); GPU caches and AccelerationContext are out of scope")
